@@ -118,6 +118,21 @@ def c01_cases():
         assert not ib.confusing_plain(h["classes"]), tag
         out.append((f"plain-mid-slotted-leaf-{tag}", c01.make_case(h, call("t1"))))
         out.append((f"plain-mid-slotted-leaf-{tag}-kw", c01.make_case(h, call(x="t1"))))
+    # -- one attrs.Converter OBJECT serves fields of different names in different classes (first a field `x` of a
+    #    throw-away class, then `y` here): `y` goes through ITS converter, whatever `x` has here
+    for tag, api in (("attr-s", "attr.s"), ("define", "define"), ("make-class", "make_class"), ("attr-s-frozen-slots", "attr.s")):
+        extra = {"frozen": True, "slots": True} if tag.endswith("slots") else {}
+        for xconv in ("plain", None):
+            fields = [F("x", converter=xconv), F("y", default="value", converter="c01", conv_shared="g1", conv_prime="x"),
+                      F("z", default="factory", converter="c11", conv_shared="g1", conv_prime="x")]
+            h = H([C("C0", api, fields, **extra)])
+            out.append((f"shared-converter-object-{tag}-x-{xconv}", c01.make_case(h, call("t1"))))
+            out.append((f"shared-converter-object-{tag}-x-{xconv}-passed", c01.make_case(h, call("t1", "t2", "t3"))))
+    # -- a look-alike twin (same module, qualname, source, callback objects; other metadata / plain defaults) first
+    for tag, api in (("attr-s", "attr.s"), ("define", "define"), ("make-class", "make_class")):
+        h = H([C("C0", api, [F("x", default="value"), F("y", default="value", converter="c01"), F("z", default="factory", validators=1)])])
+        h["classes"][0]["cb_twin"] = True
+        out.append((f"look-alike-twin-first-{tag}", c01.make_case(h, call())))
     # -- a subclass re-declares a base's field by a BARE annotation without value: mandatory, whatever the base keeps under
     #    that name (a slot descriptor for a slotted base)
     for tag, api in (("define", "define"), ("frozen", "frozen")):
@@ -169,6 +184,19 @@ def c02_cases():
         hp = H([C("C0", "attr.s", [F("x")], auto_exc=True, post=True, post_mode=mode), C("C1", "define", [F("y", default="value", kw_only=True)])],
                exc_root="ValueError")
         out.append((f"post-init-{mode}-inherited-hook", c02.make_case(hp, call("t1", y="t2"), None, True)))
+    # -- a look-alike twin first: validators / takes_field converters must be handed THIS class's Attribute objects
+    for tag, api in (("attr-s", "attr.s"), ("define", "define"), ("make-class", "make_class"), ("these", "these")):
+        h = H([C("C0", api, [F("x", validators=2, converter="c01"), F("y", default="value", validators=1, v_deco=1, converter="c11")], post=True)])
+        h["classes"][0]["cb_twin"] = True
+        out.append((f"look-alike-twin-first-{tag}", c02.make_case(h, call("t1"), None, True)))
+        out.append((f"look-alike-twin-first-{tag}-fault", c02.make_case(h, call("t1"), ["validator", "x", 1], True, "typeerror")))
+    # -- every exception class through every kind of composite validator (list, and_(), validator= plus @x.validator)
+    comp = H([C("C0", "attr.s", [F("x", validators=3), F("y", default="value", validators=2, v_and=True),
+                                 F("z", default="value", validators=2, v_deco=1), F("w", default="value", validators=1)], post=True)])
+    for exc in sorted(ib.FAULT_EXCS):
+        for fld, idx in (("x", 0), ("x", 1), ("y", 0), ("y", 1), ("z", 0), ("z", 1), ("w", 0)):
+            out.append((f"fault-{exc}-in-composite-{fld}{idx}", c02.make_case(comp, call("t1"), ["validator", fld, idx], True, exc)))
+        out.append((f"fault-{exc}-in-post-init", c02.make_case(comp, call("t1"), ["post", "", 0], True, exc)))
     # -- K02a (repaired): a FALSY callable object given as the one validator of a field runs like any other validator
     for kind in ("falsy", "len0"):
         for tag, api in (("attr-s", "attr.s"), ("define", "define"), ("make-class", "make_class"), ("these", "these")):
